@@ -335,7 +335,7 @@ func runShardedExe(exe, wname, p string, tier string, seed uint64, runs int64, b
 	for k := 0; k < procs; k++ {
 		k := k
 		go func() {
-			limit := 15 * time.Minute
+			limit := 6 * time.Minute // a quick shard takes seconds; a call of the code under test that never returns must not cost a quarter of an hour
 			if budget > 0 {
 				limit = time.Duration(budget*float64(time.Second)) + 10*time.Minute
 			}
@@ -431,8 +431,23 @@ func cmdCheck(args []string) int {
 	if spec.Shards {
 		a, err := runSharded(*p, *tier, seed, runs, budget, workers)
 		if err != nil {
-			fmt.Fprintln(os.Stderr, "HARNESS-FAULT:", err)
-			return 2
+			// a process of the batch was lost (killed at its deadline, crashed). If
+			// the others recorded violations these are still reported - each is
+			// reproduced in a fresh process before it is printed, so the lost
+			// process cannot make the report wrong, only the coverage smaller.
+			unknown := false
+			if a != nil {
+				for _, v := range a.Viol {
+					if v.Property == *p && known.Match(v.Property, v.Sig) == nil {
+						unknown = true
+					}
+				}
+			}
+			if !unknown {
+				fmt.Fprintln(os.Stderr, "HARNESS-FAULT:", err)
+				return 2
+			}
+			fmt.Printf("NOTE: %v; the violations recorded by the other processes of the batch are reported\n", err)
 		}
 		agg = a
 	} else {
